@@ -183,8 +183,8 @@ BLOCK = ('runonce', 'lbgs', 'lbjac')
 
 
 def _linear_solver(kind, assemble, rhs=None, err=True):
-    """err: raise AnalysisError when an iterative linear solver reports non-convergence (OpenMDAO's default is to
-    print a message and carry on with whatever is in the vectors)"""
+    """err: ScipyKrylov raises AnalysisError when it reports non-convergence (OpenMDAO's default is to print a
+    message and carry on with whatever is in the vectors).  The block solvers always raise."""
     kw = {}
     if rhs is not None and kind in ('direct', 'krylov'):
         kw['rhs_checking'] = dict(rhs) if isinstance(rhs, dict) else bool(rhs)
